@@ -33,6 +33,10 @@ from engine.report import Report
 
 PID = "C08"
 POSE = ("_position", "_orientation")
+# attributes that make up the state of magpylib objects: nothing reachable from the field computation may assign them on an object it was handed
+OBJ_STATE = POSE + ("position", "orientation", "pixel", "_pixel", "dimension", "_dimension", "polarization", "_polarization", "magnetization", "_magnetization",
+                    "vertices", "_vertices", "faces", "_faces", "diameter", "_diameter", "current", "_current", "moment", "_moment", "handedness", "_handedness",
+                    "parent", "_parent", "children", "_children", "style", "_style", "_style_kwargs", "field_func", "_field_func")
 
 
 def _st(ok):
@@ -161,17 +165,22 @@ def callee_frame(rep):
         tree = ast.parse(open(path, encoding="utf8").read())
         bad = []
         for fn in [n for n in ast.walk(tree) if isinstance(n, (ast.FunctionDef,))]:
-            if fn.name == "getBH_level2":
-                continue
+            if fn.name in ("getBH_level2", "style_temp_edit"):
+                continue  # getBH_level2 has its own obligations; style_temp_edit is display-only (not reachable from the field computation; C19 covers its restore)
             for n in ast.walk(fn):
                 if isinstance(n, (ast.Assign, ast.AugAssign)) and _pose_store(n):
                     bad.append(f"{fn.name}: {ast.unparse(n)[:60]}")
+                elif isinstance(n, (ast.Assign, ast.AugAssign)):
+                    for t in (n.targets if isinstance(n, ast.Assign) else [n.target]):
+                        for s_ in ast.walk(t):
+                            if isinstance(s_, ast.Attribute) and isinstance(s_.ctx, ast.Store) and s_.attr in OBJ_STATE:
+                                bad.append(f"{fn.name}: {ast.unparse(n)[:60]}")
                 if isinstance(n, ast.Call) and isinstance(n.func, ast.Attribute) and n.func.attr in (
                         "move", "rotate", "reset_path", "rotate_from_angax", "rotate_from_rotvec", "rotate_from_euler",
                         "rotate_from_quat", "rotate_from_matrix", "rotate_from_mrp"):
                     bad.append(f"{fn.name}: call .{n.func.attr}()")
         rel = os.path.relpath(path, root)
-        rep.obligation(f"frame:{rel}:no-function-writes-object-poses", _st(not bad), rel, "frame")
+        rep.obligation(f"frame:{rel}:no-function-assigns-an-attribute-of-an-object-it-was-handed(pose,geometry,excitation,pixel,tree,style)", _st(not bad), rel, "frame")
         if bad:
             fails.append(dict(name=f"frame:{rel}", why="; ".join(bad[:4])))
     return fails
@@ -364,7 +373,7 @@ def native_faults(seed):
             d = {"pos": o._position.tobytes(), "ori": o._orientation.as_quat().tobytes(), "parent": id(o._parent)}
             for a in ("_dimension", "_polarization", "_magnetization", "_pixel", "_vertices", "_current", "_moment", "_diameter"):
                 v = getattr(o, a, None)
-                d[a] = None if v is None else np.asarray(v).tobytes()
+                d[a] = None if v is None else (np.asarray(v).shape, np.asarray(v).tobytes())
             d["children"] = [id(c) for c in getattr(o, "_children", [])]
             d["style"] = repr(o.style.as_dict())  # the observable style (lazy creation of the style object is not a change)
             out.append(d)
@@ -399,6 +408,7 @@ def native_faults(seed):
             cub = magpy.magnet.Cuboid(dimension=(1, 2, 3), polarization=(0.1, 0.2, 0.3), position=rng.normal(size=(2, 3)))
             cyl = magpy.magnet.Cylinder(dimension=(1, 1), polarization=(0, 0, 1))
             sens = magpy.Sensor(position=rng.normal(size=(m_sens, 3)) + 5, pixel=rng.normal(size=(2, 3)))
+            sens1 = magpy.Sensor(position=(4, 4, 4), pixel=(0.1, 0.2, 0.3))  # a single pixel given as a bare (3,) vector
             sens2 = magpy.Sensor(pixel=rng.normal(size=(3, 3)), position=(7, 7, 7))
             col = magpy.Collection(cyl)
             srcs, obs, kw = [cub, col], [sens], {}
@@ -416,7 +426,7 @@ def native_faults(seed):
                 obs = [sens, sens2]
             elif case == "bad_field_func_none":
                 srcs = [cub, magpy.misc.CustomSource(), col]
-            objs = [o for o in srcs if not isinstance(o, magpy.Collection)] + [cyl, col, sens, sens2]
+            objs = [o for o in srcs if not isinstance(o, magpy.Collection)] + [cyl, col, sens, sens2, sens1]
             user_obs = rng.normal(size=(4, 3))
             before = snap(objs)
             ub = user_obs.tobytes()
@@ -428,6 +438,8 @@ def native_faults(seed):
                 raised = type(e).__name__
             try:
                 magpy.getH(cub, user_obs)
+                magpy.getH(cub, sens1)
+                magpy.getB(cub, [sens1, magpy.Sensor(pixel=(1, 2, 3))])
             except Exception:  # pylint: disable=broad-except
                 pass
             after = snap(objs)
